@@ -25,6 +25,7 @@ META = {
     "assumptions": ["GAF reader stub yields Alignment objects (parsing is C16)", "open() model file system; output inspected "
                     "as written (file need not be closed)"],
 }
+META["explanation"] += '  parsed/*: the third read name holds a solver-chosen character (none, 0x1f, NBSP, VT, |, %) and the TSV also lists the name cut at that character with another haplotype.'
 
 STATUS = ["H1", "H2", "none", "absent", "twice"]
 TAGMENU = [
@@ -82,47 +83,72 @@ PARSED_LINES = [
 ]
 
 
-def build_parsed(params):
-    args = [("s0", "int"), ("s1", "int"), ("s2", "int")]
-    pre = ["0 <= s0 <= 2 and 0 <= s1 <= 2 and 0 <= s2 <= 2"]
+NAMECH = ["", chr(0x1f), chr(0xa0), chr(0x0b), "|", "%"]
 
-    def case(s0, s1, s2):
+
+def parsed_setup(sel, ch):
+    """lines, names as they must come out, TSV lines and expected phase status of the three parsed records.  The third read name holds a
+    character that Python counts as white space but that is not a blank: the documented cut is at the first blank only.  The TSV also lists
+    the read whose name is the part before that character, with another haplotype."""
+    st = [["H1", "none", "absent"][x] for x in sel]
+    lines = list(PARSED_LINES)
+    n2 = "p2" + ch + ("x" if ch else "")
+    lines[2] = n2 + lines[2][2:]
+    names = ["p0", "p1", n2]
+    tsv = []
+    if ch:
+        tsv.append("p2\tH2\t5\tchrX\n")
+    for nm, x in zip(names, st):
+        if x == "H1":
+            tsv.append("%s\tH1\t77\tchr9\n" % nm)
+        elif x == "none":
+            tsv.append("%s\tnone\tnone\tchr9\n" % nm)
+    return lines, names, tsv, st
+
+
+def parsed_check(out, lines, names, st):
+    if len(out) != 3:
+        return "%d output lines for 3 records" % len(out)
+    for i in range(3):
+        fi = lines[i].rstrip("\n").split("\t")
+        fo = out[i].split("\t")
+        want12 = [names[i]] + fi[1:12]
+        if fo[:12] != want12:
+            return "record %d: mandatory columns %r, input %r" % (i, fo[:12], want12)
+        rest = [x for x in fo[12:] if not x.startswith(("ps:Z:", "ht:Z:"))]
+        if rest != fi[12:]:
+            return "record %d: optional fields %r, input had %r" % (i, rest, fi[12:])
+        ps = [x for x in fo[12:] if x.startswith("ps:Z:")]
+        ht = [x for x in fo[12:] if x.startswith("ht:Z:")]
+        if st[i] == "H1":
+            if ps != ["ps:Z:chr9-77"] or ht != ["ht:Z:H1"]:
+                return "record %d: phase tags %r %r" % (i, ps, ht)
+        elif ps != ["ps:Z:none"] or ht != ["ht:Z:none"]:
+            return "record %d: phase tags %r %r for an unphased/absent read" % (i, ps, ht)
+    return None
+
+
+def build_parsed(params):
+    args = [("s0", "int"), ("s1", "int"), ("s2", "int"), ("c", "int")]
+    pre = ["0 <= s0 <= 2 and 0 <= s1 <= 2 and 0 <= s2 <= 2 and 0 <= c <= %d" % (len(NAMECH) - 1)]
+
+    def case(s0, s1, s2, c):
         P = M["P"]
         e = stubs.env()
-        st = [["H1", "none", "absent"][0 if x == 0 else 1 if x == 1 else 2] for x in (s0, s1, s2)]
-        names = ["p0", "p1", "p2"]
-        tsv = []
-        for nm, x in zip(names, st):
-            if x == "H1":
-                tsv.append("%s\tH1\t77\tchr9\n" % nm)
-            elif x == "none":
-                tsv.append("%s\tnone\tnone\tchr9\n" % nm)
+        sel = [0 if x == 0 else 1 if x == 1 else 2 for x in (s0, s1, s2)]
+        ch = NAMECH[-1]
+        for k, v in enumerate(NAMECH):
+            if c == k:
+                ch = v
+        lines, names, tsv, st = parsed_setup(sel, ch)
         e.files["h.tsv"] = stubs.MFile("text", tsv, None)
-        e.files["in.gaf"] = stubs.MFile("bgzf" if params["gz"] else "text", PARSED_LINES, None)
+        e.files["in.gaf"] = stubs.MFile("bgzf" if params["gz"] else "text", lines, None)
         # an earlier call in the same process with another haplotag file must not influence this one
-        e.files["h0.tsv"] = stubs.MFile("text", ["p0\tH2\t5\tchrX\n", "p1\tH2\t5\tchrX\n", "p2\tH2\t5\tchrX\n"], None)
+        e.files["h0.tsv"] = stubs.MFile("text", ["p0\tH2\t5\tchrX\n", "p1\tH2\t5\tchrX\n", "%s\tH2\t5\tchrX\n" % names[2]], None)
         P.add_phase_info("in.gaf", "h0.tsv", "o0.gaf")
         P.add_phase_info("in.gaf", "h.tsv", "o.gaf")
         out = [str(l).rstrip("\n") for l in e.files["o.gaf"].lines]
-        if len(out) != 3:
-            return "%d output lines for 3 records" % len(out)
-        for i in range(3):
-            fi = PARSED_LINES[i].rstrip("\n").split("\t")
-            fo = out[i].split("\t")
-            want12 = [fi[0].split(" ")[0]] + fi[1:12]
-            if fo[:12] != want12:
-                return "record %d: mandatory columns %r, input %r" % (i, fo[:12], want12)
-            rest = [x for x in fo[12:] if not x.startswith(("ps:Z:", "ht:Z:"))]
-            if rest != fi[12:]:
-                return "record %d: optional fields %r, input had %r" % (i, rest, fi[12:])
-            ps = [x for x in fo[12:] if x.startswith("ps:Z:")]
-            ht = [x for x in fo[12:] if x.startswith("ht:Z:")]
-            if st[i] == "H1":
-                if ps != ["ps:Z:chr9-77"] or ht != ["ht:Z:H1"]:
-                    return "record %d: phase tags %r %r" % (i, ps, ht)
-            elif ps != ["ps:Z:none"] or ht != ["ht:Z:none"]:
-                return "record %d: phase tags %r %r for an unphased/absent read" % (i, ps, ht)
-        return None
+        return parsed_check(out, lines, names, st)
 
     return Harness(args, pre, case, fuel=50)
 
@@ -265,34 +291,28 @@ def replay(params, model, wd):
     if params.get("kind") == "parsed":
         import pysam
 
-        st = [["H1", "none", "absent"][x] for x in model["args"]]
+        ma = list(model["args"]) + [0]
+        lines, names, tsv, st = parsed_setup(ma[:3], NAMECH[ma[3]])
         gaf = os.path.join(wd, "in.gaf")
-        open(gaf, "w").write("".join(PARSED_LINES))
+        open(gaf, "w").write("".join(lines))
         if params["gz"]:
             pysam.tabix_compress(gaf, gaf + ".gz", force=True)
             gaf += ".gz"
         tp = os.path.join(wd, "h.tsv")
-        with open(tp, "w") as fh:
-            for nm, x in zip(["p0", "p1", "p2"], st):
-                if x == "H1":
-                    fh.write("%s\tH1\t77\tchr9\n" % nm)
-                elif x == "none":
-                    fh.write("%s\tnone\tnone\tchr9\n" % nm)
+        open(tp, "w").write("".join(tsv))
         out = os.path.join(wd, "o.gaf")
         try:
             P.run(gaf, tp, out)
         except BaseException as e:  # noqa
             return {"reproduced": True, "key": "C20:parsed:exception", "what": repr(e)}
         got = open(out).read().split("\n")
-        for i in range(3):
-            fi = PARSED_LINES[i].rstrip("\n").split("\t")
-            fo = got[i].split("\t") if i < len(got) else []
-            rest = [x for x in fo[12:] if not x.startswith(("ps:Z:", "ht:Z:"))]
-            if fo[:12] != [fi[0].split(" ")[0]] + fi[1:12] or rest != fi[12:]:
-                lost = [x for x in fi[12:] if x not in rest]
-                return {"reproduced": True, "key": "C20:parsed:%s" % ("lost-" + lost[0][:5] if lost else "columns"),
-                        "what": "record %r written as %r" % (PARSED_LINES[i], got[i] if i < len(got) else None)}
-        return {"reproduced": False, "detail": "parsed records re-emitted unchanged"}
+        if got and got[-1] == "":
+            got = got[:-1]
+        r = parsed_check(got, lines, names, st)
+        if r:
+            kind = "phase-tags" if "phase tags" in r else "optional-fields" if "optional" in r else "columns" if "columns" in r else "count"
+            return {"reproduced": True, "key": "C20:parsed:%s" % kind, "what": r, "files": {"gaf": lines, "tsv": tsv, "output": got}}
+        return {"reproduced": False, "detail": "parsed records re-emitted unchanged, phase tags as listed"}
 
     n = len(params["status"])
     a = model["args"]
